@@ -47,12 +47,16 @@ Step(e) ==
                 \* system-scoped token is refused for a project-scoped default
                 \* whatever the files say
                 scope == e.scopeblk = 1
-            IN /\ ok' = (ok /\ c10 /\ c09 /\ eq /\ e.raised = 0 /\ idem /\ frozen /\ scope)
+                \* beyond the listed properties: the deprecation warnings of this call (recorded only
+                \* when the harness switched them on)
+                warn == e.warnon = 1 => e.warn = LoadWarnings(st, fs, dirs, e.force = 1, EnforceNew, Overwrite)
+            IN /\ ok' = (ok /\ c10 /\ c09 /\ eq /\ e.raised = 0 /\ idem /\ frozen /\ scope /\ warn)
                /\ why' = IF ~ok THEN why
                          ELSE IF e.raised = 1 THEN "load-or-enforce-raised"
                          ELSE IF ~frozen THEN "registered-objects-mutated"
                          ELSE IF ~idem THEN "reload-changed-printed-policy"
                          ELSE IF ~scope THEN "scope-types-not-from-default"
+                         ELSE IF ~warn THEN "deprecation-warnings-differ"
                          ELSE IF ~eq THEN "long-lived-differs-from-fresh"
                          ELSE IF ~c09 THEN "fresh-differs-from-layering"
                          ELSE IF ~c10 THEN "long-lived-differs-from-spec-state"
